@@ -247,7 +247,7 @@ def c02(run):
                 "cases sharing bytes+formats share a key and TLC requires equal verdicts, byte-identical output on success and prefix-comparable "
                 "output on failure (XtObs!End/Agrees); non-trivial = multi-document or mutated input; distinct by bytes, formats and schedule")
     run.assumptions += OBS_ASSUME
-    obs_stage(run, "witnesses,streams", _q(run, 25, 400), ["C02"], "generated single/multi-document streams of every format x 4 targets x explicit/detected x slice + 7 read schedules")
+    obs_stage(run, "witnesses,boundaries,streams", _q(run, 25, 400), ["C02"], "generated single/multi-document streams of every format x 4 targets x explicit/detected x slice + 7 read schedules")
     obs_stage(run, "encodings", _q(run, 6, 100), ["C02"], "YAML text in UTF-8/16/32 (LE/BE, +-BOM) x slice + 6 read schedules incl. cuts inside code units")
     obs_stage(run, "unknown", _q(run, 300, 6000), ["C02"], "mutated/truncated/spliced inputs x 3 source selections x slice + 4 read schedules")
 
@@ -257,7 +257,7 @@ def c03(run):
                 "stream; TLC requires every accepted byte to extend the concatenation of the solo translations, whole frames in order, and End(ok) only "
                 "with every document written (XtObs!ObsWrite/End); non-trivial = >= 2 documents or calls")
     run.assumptions += OBS_ASSUME
-    obs_stage(run, "witnesses,streams", _q(run, 25, 400), ["C03"], "multi-document streams (0..24 documents, all legal separators, documents padded to 8/16 KiB boundaries)")
+    obs_stage(run, "witnesses,boundaries,streams", _q(run, 25, 400), ["C03"], "multi-document streams (0..24 documents, all legal separators, documents padded to 8/16 KiB boundaries)")
     obs_stage(run, "histories", _q(run, 400, 8000), ["C03"], "histories of 1-4 calls in mixed formats and supply modes on one Translator")
 
 
@@ -506,3 +506,112 @@ def c18(run):
     validate_records(run, records, "XtLimits.tla", "XtLimits.cfg", "nesting-limit run breaks XtLimits", "xtlimits")
     run.assumptions += ["default 8 MiB main-thread stack (ulimit -s of the sandbox)", "binaries are built from /repo's working tree: cargo build (debug) and cargo build --release"]
     run.exhaustive = True
+
+
+# ----------------------------------------------------------------------------- C04 / totality
+
+def run_worker_batches(cases, worker_cmd, per_batch=20000, batch_timeout=60, max_culprits=3):
+    """Feeds cases (dicts with id) to an isolated harness worker; a crash or a missed deadline is
+    attributed to the case that was in progress and the rest is resumed in a new worker."""
+    import subprocess
+    results = {}
+    pending = list(cases)
+    culprits = 0
+    while pending and culprits < max_culprits:
+        batch, pending = pending[:per_batch], pending[per_batch:]
+        while batch and culprits < max_culprits:
+            inp = "".join(json.dumps(c) + "\n" for c in batch).encode()
+            timed_out = False
+            try:
+                p = subprocess.run([common.XTV, worker_cmd], input=inp, stdout=subprocess.PIPE, stderr=subprocess.PIPE,
+                                   timeout=batch_timeout, env=common.offline_env())
+                out, rc = p.stdout, p.returncode
+            except subprocess.TimeoutExpired as e:
+                out, rc, timed_out = e.stdout or b"", None, True
+            begun = None
+            for line in out.decode("utf-8", "replace").split("\n"):
+                if not line.strip():
+                    continue
+                try:
+                    r = json.loads(line)
+                except ValueError:
+                    continue
+                if r.get("begin"):
+                    begun = r["id"]
+                else:
+                    results[r["id"]] = {"res": r["res"], "msg": r.get("msg", "")}
+                    if r["id"] == begun:
+                        begun = None
+            rest = [c for c in batch if c["id"] not in results]
+            if not rest:
+                break
+            if begun is None and not timed_out and rc == 0:
+                raise ToolError("worker %s ended early without a crash" % worker_cmd)
+            culprit = begun if begun is not None else rest[0]["id"]
+            culprits += 1
+            batch_timeout = min(batch_timeout, 20)
+            results[culprit] = {"res": "timeout" if timed_out else "signal", "msg": "worker %s (status %s)" % ("missed its deadline" if timed_out else "died", rc)}
+            batch = [c for c in rest if c["id"] != culprit]
+    return results
+
+
+def c04(run):
+    import cli, subprocess
+    run.rule = ("each case = one translate call: (1) every sequence of <= 3 (thorough: 4) tokens over each format's 24-token alphabet, enumerated by TLC (XtTokens); "
+                "(2) adversarial shapes (length prefixes up to 2^32-1, nested claims, alias bombs, lone anchors, deep block/flow nesting, empty input, 16-bit map boundaries); "
+                "(3) structure-aware mutations and valid documents with a value the target refuses at a random tree path; each under its own format and under detection, "
+                "to all targets, slice and reader with varying read sizes, in an isolated worker with a deadline; the adversarial and mutated cases also through the debug and release binaries. "
+                "TLC checks XtTotal: every call ends in ok or err")
+    common.build_harness()
+    cfg = _q(run, "XtTokens.cfg", "XtTokens_thorough.cfg")
+    gen = run_tlc("XtTokens.tla", cfg, workers=4, coverage=False)
+    run.add_mc(gen, "XtTokens: TLC enumerates every token index sequence up to the length bound (one initial state each)")
+    toks = sorted(set(tlc_printed(gen["out"], "TOKS")))
+    tpath = write_lines(os.path.join(WORK, "toks_%s.ndjson" % run.tier), toks)
+    cpath = os.path.join(WORK, "total_cases_%s.ndjson" % run.tier)
+    run_xtv(["total-gen", cpath, tpath, _q(run, 300, 6000)], timeout=1200)
+    cases = [json.loads(x) for x in read_lines(cpath)]
+    res = run_worker_batches(cases, "total-worker")
+    records = []
+    for c in cases:
+        if c["id"] not in res:
+            continue        # not executed: the run was cut short after repeated crashes / missed deadlines
+        r = res[c["id"]]
+        rec = {"ev": "call", "runner": "lib", "label": c["label"], "from": c["from"], "to": c["to"], "mode": c["mode"], "res": r["res"], "msg": r["msg"][:100]}
+        if r["res"] not in ("ok", "err") or c["label"] != "tokens" or len(records) < 5:
+            rec["hex"] = c["hex"][:400]
+        records.append(rec)
+    # the binaries: the only signal xt may die from is SIGPIPE
+    xt_dbg = common.build_xt("debug")
+    xt_rel = common.build_xt("release")
+    adv = [c for c in cases if c["label"] not in ("tokens", "mutated", "valid+refusal") and c["to"] == "json" and len(c["hex"]) < 400000]
+    oth = [c for c in cases if c["label"] in ("mutated", "valid+refusal")]
+    oth = oth[::max(1, len(oth) // _q(run, 300, 4000))]
+    sel = adv + adv + oth            # adversarial shapes through BOTH binaries (index parity picks the binary)
+    if len(adv) % 2 == 0:
+        sel = adv + [adv[0]] + adv[1:] + adv[:1] + oth
+    tmp = os.path.join(WORK, "total-%s" % run.tier)
+    os.makedirs(tmp, exist_ok=True)
+
+    def one(job):
+        i, c = job
+        path = os.path.join(tmp, "in_%d.bin" % i)
+        with open(path, "wb") as f:
+            f.write(bytes.fromhex(c["hex"]))
+        binary = xt_dbg if i % 2 else xt_rel
+        args = ["-t", c["to"]] + ([] if c["from"] == "detect" else ["-f", c["from"]])
+        if c["mode"] == "slice":
+            r = cli.run_xt(binary, args + [path], timeout=20, stdout=subprocess.DEVNULL)
+        else:
+            r = cli.run_xt(binary, args, stdin_path=path, timeout=20, stdout=subprocess.DEVNULL)
+        os.remove(path)
+        resv = "timeout" if r["timeout"] else "signal" if r["signal"] else "ok" if r["exit"] == 0 else "err" if r["exit"] == 1 else "exit%s" % r["exit"]
+        return {"ev": "call", "runner": "debug" if i % 2 else "release", "label": c["label"], "from": c["from"], "to": c["to"], "mode": c["mode"],
+                "res": resv, "msg": r["stderr"].decode("utf-8", "replace")[:100], "signal": r["signal"], "hex": c["hex"][:400]}
+    records += cli.pmap(one, list(enumerate(sel)), workers=12)
+    run.evaluations += len(records)
+    run.nontrivial += len({(r["label"], r.get("hex", str(i)), r["from"], r["to"], r["mode"], r["runner"]) for i, r in enumerate(records)})
+    run.samples += [r for r in records if r["label"] != "tokens"][:3] + records[:2]
+    validate_records(run, records, "XtTotal.tla", "XtTotal.cfg", "a call did not end in success or an error value", "xttotal")
+    run.assumptions += ["deadline: 60 s per batch of 20 000 in-process cases (a normal batch takes about 1 s), 20 s per binary run; after 3 crashes or missed deadlines the in-process run is cut short", "stack overflow is observed as the death of the isolated worker / binary"]
+    run.exhaustive = False
